@@ -65,10 +65,43 @@ structure ArgM where
   relatedType : Str         -- its data type
 deriving DecidableEq, Repr
 
+/-- first position (counting from `i`) of an element satisfying `p` -/
+def findIdxFrom {α : Type} (p : α → Bool) : List α → Nat → Option Nat
+  | [], _ => none
+  | a :: r, i => if p a then some i else findIdxFrom p r (i + 1)
+
+/-- positions (counting from `i`) of the elements satisfying `p` -/
+def idxWhere {α : Type} (p : α → Bool) : List α → Nat → List Nat
+  | [], _ => []
+  | a :: r, i => if p a then i :: idxWhere p r (i + 1) else idxWhere p r (i + 1)
+
+/-- `UpnpAction.argument(name, direction)`: the first argument of that name (and direction, if given),
+    as its position in `arguments` -/
+def argLookup (args : List ArgM) (name : Str) (dir : Option Str) : Option Nat :=
+  findIdxFrom (fun a => a.name == name && (match dir with | none => true | some d => a.direction == d)) args 0
+
+/-- an action as its public accessors show it: `arguments` in order, `in_arguments()`, `out_arguments()`
+    (positions in `arguments`), and for every argument what `argument(name, direction)` and
+    `argument(name)` return for its own name / direction -/
 structure ActM where
   name : Str
   args : List ArgM
+  inArgs : List Nat
+  outArgs : List Nat
+  byNameDir : List (Option Nat)
+  byName : List (Option Nat)
 deriving DecidableEq, Repr
+
+def dirIn : Str := ['i', 'n']
+def dirOut : Str := ['o', 'u', 't']
+
+/-- the action object for a name and its bound arguments (accessors transcribed from `UpnpAction`) -/
+def mkAct (name : Str) (args : List ArgM) : ActM :=
+  { name := name, args := args
+    inArgs := idxWhere (fun a => a.direction == dirIn) args 0
+    outArgs := idxWhere (fun a => a.direction == dirOut) args 0
+    byNameDir := args.map fun a => argLookup args a.name (some a.direction)
+    byName := args.map fun a => argLookup args a.name none }
 
 structure SvcM (F : Type) where
   serviceId : Str
@@ -221,7 +254,7 @@ def bindArg (lookup : Str → Option (VarM F)) (g : Str × Str × Str) : Except 
     the NAME given as its related state variable; no such variable: KeyError -/
 def actionOf (lookup : Str → Option (VarM F)) (name : Option Str) (args : List (Str × Str × Str)) : Except FErr ActM :=
   match mapE (bindArg lookup) args with
-  | .ok as => .ok { name := name.getD ['n', 'a', 'm', 'e', 'l', 'e', 's', 's'], args := as }
+  | .ok as => .ok (mkAct (name.getD ['n', 'a', 'm', 'e', 'l', 'e', 's', 's']) as)
   | .error e => .error e
 
 /-- `_create_action` (`svs = {sv.name: sv for sv in state_variables}`) -/
